@@ -163,6 +163,60 @@ def r1(k: Kit) -> None:
                         k.loc(fi, node))
     rep.floor('C13.R1', 'path-taking operations', ops, 17)
     rep.floor('C13.R1', 'sanitised flows', flows, 22)
+    # nothing is appended to a path after it was confined
+    from ..flow import expr_sources as _es
+    JOINS = ('os.path.join', 'posixpath.join')
+    nj = 0
+    for name, fi in sorted(srv.methods.items()):
+        if name in ('map_path', 'reverse_map_path'):
+            continue
+        g = k.cfg(fi)
+        rd = k.rd(fi)
+
+        def extended(nid, e, depth=0):
+            """a join / concatenation in e's history one of whose operands
+            comes from map_path"""
+            lv, free = _es(g, rd, nid, e)
+            for l in list(lv) + [e]:
+                for x in ast.walk(l):
+                    ops = None
+                    if isinstance(x, ast.Call) and dotted(x.func) in JOINS:
+                        ops = x.args
+                    elif isinstance(x, ast.BinOp) and \
+                            isinstance(x.op, ast.Add):
+                        ops = [x.left, x.right]
+                    if not ops:
+                        continue
+                    for o in ops[:1]:
+                        l2, _ = _es(g, rd, nid, o)
+                        if any(san(y) for z in list(l2) + [o]
+                               for y in ast.walk(z)
+                               if isinstance(y, ast.Call)):
+                            return x
+            return None
+        for node in g.nodes:
+            for call in g.calls_at(node):
+                if not is_fs_sink(call):
+                    continue
+                if dotted(call.func) == 'os.path.realpath' and \
+                        node.kind == 'atom' and \
+                        isinstance(node.ast, ast.Compare):
+                    continue        # the containment test itself
+                for a in call.args:
+                    nj += 1
+                    x = extended(node.id, a)
+                    rep.check(x is None, 'C13.R1',
+                              key(fi, f'{dotted(call.func)} path not '
+                                  'extended after map_path'),
+                              'the mapped path is used as mapped',
+                              f'{dotted(call.func)}() is given '
+                              f'`{norm(x)[:70] if x is not None else ""}`: a '
+                              'component joined onto a path that '
+                              'self.map_path already confined (".." of the '
+                              'root, a peer-chosen name) is resolved by the '
+                              'operating system outside the root',
+                              k.loc(fi, node))
+    rep.count('C13.R1.sink arguments checked for late joins', nj)
     # the handler class itself must not hand peer strings to the filesystem
     from ..flow import depends_on
     h = idx.cls('sftp.SFTPServerHandler')
